@@ -350,12 +350,13 @@ func IndentByParentheses(s string) string {
 
 	var indent int
 	var prev = normal
+	var strEnd = -1 // index of the closing quote of the last string literal
 	for i := 0; i < len(A); i++ {
 		c := A[i]
 		switch {
-		case c == '"':
-			// copy string literals verbatim, spaces, parentheses
-			// and semicolons in them are not layout
+		case c == '"' && (i == 0 || i-1 == strEnd || unicode.IsSpace(A[i-1]) || strings.ContainsRune("()[],", A[i-1])):
+			// a quote at the start of a token opens a string literal,
+			// copy it verbatim, spaces, parentheses and semicolons in it are not layout
 			appendRune(c, prev, indent)
 			for i++; i < len(A); i++ {
 				sb.WriteRune(A[i])
@@ -363,6 +364,7 @@ func IndentByParentheses(s string) string {
 					break
 				}
 			}
+			strEnd = i
 			prev = normal
 		case left[c]:
 			appendLeft(c, prev, indent)
